@@ -124,6 +124,7 @@ func (e *Engine) RunRoot(fn *ssa.Function) (err error) {
 		e.checkNeverCalls(s, fn, fr.contract)
 		e.checkAppendOnly(s, fn, fr.contract)
 		e.checkNoEarlyExit(s, fn, fr.contract)
+		e.checkFieldCalledOnlyHere(s, fn, fr.contract)
 		e.checkSpawnNeverWrites(s, fr, fn, fr.contract)
 		e.checkGuarded(s, fn, fr.contract)
 		e.checkOnlyCallers(s, fn, fr.contract)
@@ -845,6 +846,17 @@ func (e *Engine) havocWrites(s *State, fr *Frame, w *WriteSet, hint string) {
 				s.havocHeapKey(k, hint)
 			}
 		}
+		// arrays no path has touched yet
+		var except map[string]bool
+		if w.Except != nil {
+			except = map[string]bool{}
+			for k := range w.Except {
+				if !w.Heap[k] {
+					except[k] = true
+				}
+			}
+		}
+		s.noteHavocAll(except)
 		return
 	}
 	for _, k := range sortedKeys(w.Heap) {
@@ -875,6 +887,12 @@ func (s *State) havocHeapKey(key, hint string) {
 	} else if so, ok := e.heapSorts[key]; ok {
 		sort = so
 	} else {
+		// not materialized on any path yet: remember the havoc (see State.pending)
+		s.havocSeq++
+		if s.pending == nil {
+			s.pending = map[string]int{}
+		}
+		s.pending[key] = s.havocSeq
 		return
 	}
 	if strings.HasPrefix(key, "Glob|") {
